@@ -20,6 +20,7 @@ import warnings
 
 from lib import common as C
 from props import _gpmodels as G
+from props import _c01ext as X
 
 ID = "C01"
 PROP_MODULES = ["GPVerif.Props.C01"]
@@ -138,7 +139,7 @@ def _c12_calltime_noise_defect():
 
 # ------------------------------------------------------------------ case generation
 
-def _plan(ctx, n_single, n_multi):
+def _plan(ctx, n_single, n_multi, n_ext=0, n_nd=0):
     """Deterministic plan of (kind, index) with cyclic coverage of the single-output families."""
     prng = ctx.rng("plan")
     ks, ms, ls, bs = list(G.KERNEL_KINDS), list(G.MEAN_KINDS), list(G.LIK_KINDS), list(G.BATCH_KINDS)
@@ -150,6 +151,22 @@ def _plan(ctx, n_single, n_multi):
                                         lik_kind=ls[(i + i // 3) % len(ls)], batch_kind=bs[(i + i // 12) % len(bs)])))
     for i in range(n_multi):
         plan.append(("multi", i, {}))
+    # wave 3: every kernel family with active_dims (all positions, nested, structured LinearOperator results); the
+    # structured ones in every run, the others cycled; index offset 1000 keeps the rng labels apart
+    ext = list(X.EXT_KERNEL_KINDS)
+    prng.shuffle(ext)
+    ext = list(X.EXT_ALWAYS) + [k for k in ext if k not in X.EXT_ALWAYS]
+    for i in range(n_ext):
+        plan.append(("single", 1000 + i, dict(kernel_kind=ext[i % len(ext)], mean_kind=ms[(i + i // 5) % len(ms)],
+                                               lik_kind=ls[(i + i // 3) % len(ls)], batch_kind=bs[(i + i // 7) % len(bs)])))
+    # data batches of any shape with size-1 dimensions (leading / interior / trailing), unbatched modules; offset 2000
+    nd = list(X.ND_BATCH_SHAPES)
+    prng.shuffle(nd)
+    nd = [(2, 1, 1), (3, 1, 2)] + [k for k in nd if k not in ((2, 1, 1), (3, 1, 2))]
+    for i in range(n_nd):
+        plan.append(("single", 2000 + i, dict(kernel_kind=(ks + ["sum[ad]", "linear[ad]"])[(i * 5) % (len(ks) + 2)],
+                                               mean_kind=ms[i % len(ms)], lik_kind=ls[(i + i // 3) % len(ls)],
+                                               bshape=list(nd[i % len(nd)]))))
     return plan
 
 
@@ -161,13 +178,24 @@ def build_case(ctx, kind, idx, kw, thorough=False):
         warnings.simplefilter("ignore")
         if kind == "single":
             n_max = 12 if not thorough else 16
-            model, lik, tx, ty, desc = G.build_exact_gp(rng, n_max=n_max, **kw)
+            if X.is_ext(kw.get("kernel_kind")) or kw.get("bshape") is not None:
+                model, lik, tx, ty, desc = X.build_exact_gp_ext(rng, n_max=n_max, **kw)
+            else:
+                model, lik, tx, ty, desc = G.build_exact_gp(rng, n_max=n_max, **kw)
             mode = ("random", "same-n", "random", "train-inputs", "random", "same-n", "random", "train-inputs-alias")[idx % 8]
+            if desc["batch"] == "data-nd":
+                mode = ("random-nd", "same-n-nd", "train-inputs")[idx % 3]
         else:
             model, lik, tx, ty, desc = G.build_multitask_gp(rng, n_max=5 if not thorough else 6)
             mode = ("random", "same-n", "random")[idx % 3]
         # n* != n (rectangular cross-covariance) / n* == n with x* != x / x* == the training inputs
-        if mode == "random":
+        if mode in ("random-nd", "same-n-nd"):
+            # data batch of any shape (size-1 dimensions included); the test inputs carry a batch shape that broadcasts
+            tb = X.nd_test_batch(rng, tuple(desc["bshape"]))
+            s_nd = desc["n"] if mode == "same-n-nd" else rng.choice([k for k in range(1, 5) if k != desc["n"]])
+            test_x = G._rand_tensor(rng, (*tb, s_nd, desc["d"]), -1.5, 1.5)
+            desc["test_batch"] = list(tb)
+        elif mode == "random":
             test_x = G.random_test_x(rng, desc, s_max=6 if kind == "single" else 3)
         elif mode == "same-n":
             test_x = G.random_test_x(rng, desc, s=desc["n"])
@@ -185,6 +213,9 @@ def build_case(ctx, kind, idx, kw, thorough=False):
     test_noise = None
     if desc["lik"].startswith("fixed"):
         bshape = test_x.shape[:-2] if desc["batch"] in ("data", "broadcast") else ()
+        if desc["batch"] == "data-nd":
+            import torch
+            bshape = tuple(torch.broadcast_shapes(tuple(desc["bshape"]), tuple(test_x.shape[:-2])))
         test_noise = G._rand_tensor(rng, (*bshape, s), 0.05, 0.6)
         if idx % 5 == 4:
             test_noise = test_noise * 0.0      # legal: call-time noise exactly 0.0 (truthiness bugs hide here)
@@ -320,12 +351,15 @@ def run_cell(model, lik, desc, test_x, test_noise, cell, P, skip_noisy=False, re
                 entry("marginal()", lambda: lik.marginal(p), False)
             obs["entries"] = ent
         ps = model.prediction_strategy
-        mc = ps.mean_cache
+        # the caches of the kernel-specific strategies (RFF, KISS-GP) have another meaning (C09's subject)
+        default_strategy = type(ps).__name__ == "DefaultPredictionStrategy"
+        obs["strategy"] = type(ps).__name__
+        mc = ps.mean_cache if default_strategy else None
         try:
-            obs["mean_cache"] = bexp(mc.reshape(*mc.shape[:-1], N) if mc.shape[-1] == N else mc, 1)
+            obs["mean_cache"] = None if mc is None else bexp(mc.reshape(*mc.shape[:-1], N) if mc.shape[-1] == N else mc, 1)
         except RuntimeError:
             obs["mean_cache"] = None
-        if cell["fast"] and not cell["skip"]:
+        if cell["fast"] and not cell["skip"] and default_strategy:
             cc = ps.covar_cache
             try:
                 obs["covar_cache"] = bexp(cc, 2)
@@ -428,6 +462,76 @@ def apply_history(ctx, model, lik, tx, ty, desc, test_x, cell, op, kind, idx):
     return tx, ty, desc
 
 
+# ------------------------------------------------------------------ scenarios on a FRESH build of the case (wave 3)
+
+def scenario_runs(ctx, kind, idx, kw, sc, thorough=False):
+    """Run one scenario on a fresh build of case (kind, idx, kw) — a function of (VERIF_SEED, kind, idx, kw, sc) only,
+    so `replay` re-creates it exactly.  Returns a list of dicts: judged predictions {label, desc, P, cell, obs} and state
+    checks {label: 'state', changed: [...]}.
+      repeat   three predictions on one object under sc.cell, nothing reset (2nd, 3rd call judged), state_dict unchanged
+      copy     X.copy_history(sc.op): the copy and (where its invalidation points were respected) the source are judged
+               by the closed form of THEIR OWN parameters, under sc.cell and then under sc.cell2 (nothing reset)
+      fantasy  the model returned by get_fantasy_model, then by get_fantasy_model of that model, judged by the closed
+               form of ITS OWN train data / prior / likelihood under sc.cell (the cell it was built in) and sc.cell2
+    """
+    model, lik, tx, ty, desc, test_x, test_noise = build_case(ctx, kind, idx, kw, thorough)
+    skip_noisy = desc["lik"] == "fixed+learned" and _c12_calltime_noise_defect()
+    typ, cell = sc["type"], sc["cell"]
+    out = []
+
+    def judge(label, obj, d, c, reset=False):
+        otx, oty = obj.train_inputs[0], obj.train_targets
+        P = dense_pieces(obj, obj.likelihood, otx, oty, d, test_x, test_noise)
+        obs = run_cell(obj, obj.likelihood, d, test_x, test_noise, c, P, skip_noisy, reset=reset)
+        out.append({"label": label, "desc": d, "P": P, "cell": c, "obs": obs})
+
+    if typ == "repeat":
+        dense_pieces(model, lik, tx, ty, desc, test_x, test_noise)      # lazily initialised buffers exist from here on
+        snap = X.snapshot(model)
+        judge("call-1", model, desc, cell, reset=True)
+        for lab in X.REPEAT_LABELS:
+            judge(lab, model, desc, cell)
+        out.append({"label": "state", "changed": X.changed(model, snap), "cell": cell, "desc": desc})
+    elif typ == "cells-state":
+        dense_pieces(model, lik, tx, ty, desc, test_x, test_noise)
+        snap = X.snapshot(model)
+        P = dense_pieces(model, lik, tx, ty, desc, test_x, test_noise)
+        for c in sc["cells"]:
+            run_cell(model, lik, desc, test_x, test_noise, c, P, skip_noisy)
+        out.append({"label": "state", "changed": X.changed(model, snap), "cell": cell, "desc": desc})
+    elif typ == "copy":
+        rng = ctx.rng(f"copy:{kind}:{idx}:{sc['op']}")
+        for who, obj, judged in X.copy_history(rng, model, desc, test_x, cell, sc["op"]):
+            if judged:
+                judge(f"{sc['op']}|{who}", obj, desc, cell)
+                if sc.get("cell2"):
+                    judge(f"{sc['op']}|{who}@other-cell", obj, desc, sc["cell2"])
+    elif typ == "fantasy":
+        rng = ctx.rng(f"fantasy:{kind}:{idx}:{G.cell_name(cell)}")
+        G.reset_caches(model)
+        X._touch(model, test_x, cell)
+        if type(model.prediction_strategy).__name__ != "DefaultPredictionStrategy":
+            raise X.Rejected("fantasy: kernel-specific prediction strategy " + type(model.prediction_strategy).__name__)
+        try:
+            fm, d1 = X.fantasy_model(rng, model, desc, test_x, cell, 1)
+        except Exception as e:
+            raise X.Rejected(f"get_fantasy_model raised {type(e).__name__}: {str(e)[:120]}")
+        judge("fantasy", fm, d1, cell)
+        if sc.get("cell2"):
+            judge("fantasy@other-cell", fm, d1, sc["cell2"])
+        try:
+            fm2, d2 = X.fantasy_model(rng, fm, d1, test_x, cell, 2)
+        except Exception as e:
+            ctx.count("rejected_fantasy2:" + type(e).__name__)
+            fm2 = None
+        if fm2 is not None:
+            judge("fantasy>fantasy", fm2, d2, cell)
+        judge("fantasy|source-afterwards", model, desc, cell)
+    else:
+        raise ValueError(typ)
+    return out
+
+
 # ------------------------------------------------------------------ CG tolerance cells (eval_cg_tolerance must be in force)
 
 TOL_VARIANTS = {"A": (1e-10, 1e-10), "B": (None, 1e-10), "C": (1e-10, None), "D": (0.01, 0.01)}
@@ -522,21 +626,38 @@ def _path(cell):
            (":eager-split" if cell["eager"] else ":lazy-split")
 
 
+def _state_check(ctx, kind, idx, kw, desc, changed, sc):
+    ctx.count("comparisons")
+    for name, how, val in changed[:3]:
+        ctx.fail(f"state-changed-by-prediction:{name}:{how}",
+                 f"predicting in eval mode changed the model's own state: state_dict entry `{name}` {how}"
+                 f"{'' if val is None else ' (was ' + str(val) + ')'} on {desc['kernel']} lik={desc['lik']} "
+                 f"batch={desc['batch']} scenario={sc['type']} — the next prediction is made by a different prior than "
+                 f"the one the model was built with",
+                 {"kind": kind, "idx": idx, "kw": kw, "cell": sc["cell"], "scenario": sc, "label": "state",
+                  "desc": _slim(desc)})
+
+
 def correspondence(ctx, extra=False):
     import numpy as np
     import torch
     torch.set_num_threads(2)
     thorough = ctx.tier == "thorough" or extra
     n_single, n_multi, ncell = (60, 12, 10) if not thorough else (220, 32, 64)
+    n_ext, ncell_ext = (len(X.EXT_ALWAYS) + 7, 6) if not thorough else (3 * len(X.EXT_KERNEL_KINDS), 64)
     workers = 4 if not thorough else 10
+    n_nd = 6 if not thorough else 30
     if os.environ.get("VERIF_C01_CASES"):
-        n_single, n_multi = [int(v) for v in os.environ["VERIF_C01_CASES"].split(",")]
+        n_single, n_multi, n_ext, n_nd = ([int(v) for v in os.environ["VERIF_C01_CASES"].split(",")] + [0, 0])[:4]
     c12 = _c12_calltime_noise_defect()
     if c12:
         ctx.assumption("C12-owned defect present in this tree (FixedNoise + learn_additional_noise forwards the "
                        "call-time noise to the learned noise model): the noisy-covariance observable of C01 is "
                        "skipped for that likelihood kind with call-time noise; mean/covariance still compared")
-    plan = _plan(ctx, n_single, n_multi)
+    plan = _plan(ctx, n_single, n_multi, n_ext, n_nd)
+    cell_cycle = G.all_cells()
+    ctx.rng("scenario-cells").shuffle(cell_cycle)
+    n_scen = 0
     cases, post_lines = [], []
     T = C.Timer()
     # ---- phase 1: build, evaluate densely, run the real code
@@ -548,9 +669,11 @@ def correspondence(ctx, extra=False):
             ctx.count("rejected_build:" + type(e).__name__)
             continue
         crng = ctx.rng(f"cells:{kind}:{idx}")
-        cells = G.all_cells() if ncell >= 64 else G.covering_cells(crng, ncell)
+        ext = kind == "single" and idx >= 1000      # wave-3 zoo (active_dims / structured kernels, n-d data batches)
+        cells = G.all_cells() if ncell >= 64 else G.covering_cells(crng, ncell_ext if ext else ncell)
         skip_noisy = c12 and desc["lik"] == "fixed+learned"
         runs = []
+        snap = X.snapshot(model)
         for cell in cells:
             try:
                 runs.append((cell, run_cell(model, lik, desc, test_x, test_noise, cell, P, skip_noisy)))
@@ -565,6 +688,47 @@ def correspondence(ctx, extra=False):
         cases.append({"kind": kind, "idx": idx, "kw": kw, "desc": desc, "P": P, "runs": runs, "lines": lines,
                       "codes": codes})
         ctx.count("models")
+        # a prediction must leave the model's parameters and buffers (every kernel's active_dims is one) alone
+        _state_check(ctx, kind, idx, kw, desc, X.changed(model, snap),
+                     {"type": "cells-state", "cell": cells[0], "cells": [c for c, _ in runs]})
+        # ---- wave 3 scenarios, each on a FRESH build of this case (so that a replay is exact): repeated predictions on
+        #      one object; copy histories; the models returned by get_fantasy_model
+        scen = [{"type": "repeat", "cell": crng.choice(G.all_cells())}]
+        copy_ops = list(X.COPY_OPS) if thorough else [X.COPY_OPS[n_scen % len(X.COPY_OPS)]]
+        for k, op in enumerate(copy_ops):
+            c1 = cell_cycle[(3 * n_scen + k) % 64]
+            scen.append({"type": "copy", "op": op, "cell": c1,
+                         "cell2": crng.choice([c for c in G.all_cells() if c["cg"] == c1["cg"] and c != c1])})
+        for k in range(1 if not thorough else 6):
+            c1 = cell_cycle[(5 * n_scen + 11 * k + 1) % 64]
+            scen.append({"type": "fantasy", "cell": c1,
+                         "cell2": crng.choice([c for c in G.all_cells() if c["cg"] == c1["cg"] and c != c1])})
+        n_scen += 1
+        for sc in scen:
+            try:
+                res = scenario_runs(ctx, kind, idx, kw, sc, thorough)
+            except X.Rejected as e:
+                ctx.count(f"rejected_scenario:{sc['type']}:" + str(e).split(":")[0][:60])
+                continue
+            except Exception as e:
+                name = sc["type"] + (":" + sc["op"] if "op" in sc else "")
+                ctx.fail(f"exception:scenario:{name}:{type(e).__name__}",
+                         f"scenario {name} raised {type(e).__name__}: {str(e)[:200]} on {desc['kernel']} lik={desc['lik']} "
+                         f"batch={desc['batch']} {G.cell_name(sc['cell'])}",
+                         {"kind": kind, "idx": idx, "kw": kw, "cell": sc["cell"], "scenario": sc, "label": "exception",
+                          "desc": _slim(desc)})
+                continue
+            for r in res:
+                if r["label"] == "state":
+                    _state_check(ctx, kind, idx, kw, r["desc"], r["changed"], sc)
+                    continue
+                codes3 = gen_codes([r["cell"]], r["P"], 1)
+                lines3 = [post_line(r["P"], b, codes3) for b in range(r["P"]["nb"])]
+                post_lines += lines3
+                cases.append({"kind": kind, "idx": idx, "kw": kw, "desc": r["desc"], "P": r["P"],
+                              "runs": [(r["cell"], r["obs"])], "lines": lines3, "codes": codes3,
+                              "history": [{"op": r["label"], "cell": r["cell"]}], "scenario": sc, "label": r["label"]})
+                ctx.count("scenario-cells:" + sc["type"] + ":" + r["label"].split("|")[-1])
         # ---- two-step cells on the same object: predict -> update data / parameters -> predict; the second
         #      prediction must be the conditional of the CURRENT data and parameters
         ops = list(OPS) if thorough else [OPS[(idx + (0 if kind == "single" else 1)) % len(OPS)]]
@@ -656,6 +820,8 @@ def _compare(ctx, cs, b, R, cell, obs, pending):
         d = {"kind": cs["kind"], "idx": cs["idx"], "kw": cs["kw"], "cell": cell, "batch_element": b, "desc": _slim(desc)}
         if hist:
             d["history"] = hist
+        if cs.get("scenario"):
+            d["scenario"], d["label"] = cs["scenario"], cs["label"]
         d.update(extra)
         line = cs["lines"][b]
         if len(line) < 30000:
@@ -732,8 +898,20 @@ def _compare(ctx, cs, b, R, cell, obs, pending):
     # ---- covariance
     prim_cov = None
     if cell["skip"]:
-        check("posterior-covar:skip", "skip_posterior_variances: covariance must be the zero operator",
-              obs["cov"][b], np.zeros((Sx, Sx)), 0.0)
+        strat = obs.get("strategy", "DefaultPredictionStrategy")
+        if strat != "DefaultPredictionStrategy" and _absmax(obs["cov"][b]) > 0 and \
+                _absmax(obs["cov"][b] - R.cov) <= max(R.tol_cov, 1e-4 * R.sc_cov):
+            # a kernel-specific strategy that does not look at the setting and returns the (correct) posterior
+            # covariance instead of the documented ZeroLinearOperator: its own stable key (the signature is exact:
+            # any other non-zero value is reported under the generic key below)
+            ctx.count("comparisons")
+            ctx.fail(f"skip-not-honoured:{strat}",
+                     f"skip_posterior_variances(True): {strat} returns the posterior covariance (max |.| = "
+                     f"{_absmax(obs['cov'][b]):.3e}, equal to the closed form) instead of the documented "
+                     f"ZeroLinearOperator on {where}", replay({"observable": "posterior-covar:skip"}))
+        else:
+            check("posterior-covar:skip", "skip_posterior_variances: covariance must be the zero operator",
+                  obs["cov"][b], np.zeros((Sx, Sx)), 0.0)
         if gen is not None:
             check("gen:posterior-covar:skip", "covariance vs GENERATED exact_prediction (skip)", obs["cov"][b], gen[1], 0.0,
                   tie=True)
@@ -829,6 +1007,38 @@ def search(ctx, broken):
         correspondence(ctx, extra=True)
 
 
+def _replay_scenario(ctx, case, thorough):
+    kind, idx, kw, sc, label = case["kind"], case["idx"], case.get("kw", {}), case["scenario"], case["label"]
+    try:
+        res = scenario_runs(ctx, kind, idx, kw, sc, thorough)
+    except Exception as e:
+        print("replay: scenario raised", type(e).__name__, str(e)[:300])
+        return label != "exception" and isinstance(e, X.Rejected)
+    pending, sent = [], []
+    for r in res:
+        if r["label"] != label:
+            continue
+        if label == "state":
+            _state_check(ctx, kind, idx, kw, r["desc"], r["changed"], sc)
+            continue
+        P = r["P"]
+        codes = gen_codes([r["cell"]], P, 1)
+        lines = [post_line(P, b, codes) for b in range(P["nb"])]
+        replies = _lines_parallel("C01", lines)
+        cs = {"kind": kind, "idx": idx, "kw": kw, "desc": r["desc"], "P": P, "lines": lines, "codes": codes,
+              "history": [{"op": label, "cell": r["cell"]}], "scenario": sc, "label": label}
+        for b in range(P["nb"]):
+            mats = _parse_reply(replies[lines[b]])
+            if mats is not None:
+                _compare(ctx, cs, b, Rec(P, b, mats), r["cell"], r["obs"], pending)
+    rep2 = _lines_parallel("C01", [l for l, _ in pending])
+    for line, cb in pending:
+        cb(_parse_reply(rep2[line]))
+    for f in ctx.failures[:5]:
+        print("replay:", f["key"], f["what"][:300])
+    return not ctx.failures
+
+
 def replay(ctx, payload):
     """Re-run one recorded case; True when it no longer fails."""
     import torch
@@ -841,6 +1051,8 @@ def replay(ctx, payload):
             print("replay:", f["key"], f["what"][:300])
         return not ctx.failures
     kind, idx, kw, cell = case["kind"], case["idx"], case.get("kw", {}), case["cell"]
+    if case.get("scenario"):
+        return _replay_scenario(ctx, case, payload.get("tier") == "thorough")
     model, lik, tx, ty, desc, test_x, test_noise = build_case(ctx, kind, idx, kw, payload.get("tier") == "thorough")
     c12 = _c12_calltime_noise_defect()
     skip_noisy = c12 and desc["lik"] == "fixed+learned"
